@@ -98,6 +98,41 @@ def _mentions(obj, l):
     return False
 
 
+def _depends_on_sign(f, op, negs, depth=0):
+    """Does the operand's value derive from one of the sign locals?"""
+    if depth > 6:
+        return False
+    if isinstance(op, list) and len(op) == 2 and op[0] in ("cp", "mv"):
+        l = op[1][0]
+        if l in negs:
+            return True
+        for bb, j, rv, proj in f.defs().get(l, []):
+            # selected under a test of the flag
+            for _d, e, p in path_conditions(f, bb):
+                e = strip_casts(e)
+                if e[0] == "var" and e[1] in negs:
+                    return True
+                if e[0] == "proj" and any(last_seg(x[1]) == "parse_mantissa_sign" for x in expr_calls(e)):
+                    return True
+            if rv[0] == "call":
+                if any(_depends_on_sign(f, a, negs, depth + 1) for a in rv[2]):
+                    return True
+            elif rv[0] in ("use", "cast", "un"):
+                if _depends_on_sign(f, rv[-1] if rv[0] == "use" else rv[2], negs, depth + 1):
+                    return True
+            elif rv[0] == "bin":
+                if _depends_on_sign(f, rv[2], negs, depth + 1) or _depends_on_sign(f, rv[3], negs, depth + 1):
+                    return True
+            elif rv[0] == "agg":
+                if any(_depends_on_sign(f, a, negs, depth + 1) for a in rv[2]):
+                    return True
+            elif rv[0] == "ref":
+                if _depends_on_sign(f, ["cp", rv[2]], negs, depth + 1):
+                    return True
+        return False
+    return False
+
+
 def rule_sign_reaches_every_ok(col, facts):
     """MPT-sign (parse): once the mantissa sign has been consumed, every `Ok(..)` the float entry points build
     must depend on it - the block that builds it is dominated by a use of `is_negative` (the branch that
@@ -142,6 +177,17 @@ def rule_sign_reaches_every_ok(col, facts):
                     ok = any(f.dominates(u, i) for u in users)
                     col.check(R, "%s:Ok#%d" % (name, k), ok,
                               "an Ok value is built after the sign was parsed on a path that never uses `is_negative`: the sign of the result (zero for an empty mantissa) is lost", f.loc(st[3]))
+                    # ... and the value itself depends on the flag: it is computed from it (a call that was handed
+                    # the flag, directly or through `num`), or one of its definitions is chosen under a test of it
+                    operand = st[2][2][0]
+                    if isinstance(operand, list) and operand[0] in ("cp", "mv") and not operand[1][1]:
+                        ds = f.defs().get(operand[1][0], [])
+                        # Ok((value, count)): the float is the first component of the tuple
+                        if len(ds) == 1 and ds[0][2][0] == "agg" and ds[0][2][1][0] == "tuple" and len(ds[0][2][2]) == 2:
+                            operand = ds[0][2][2][0]
+                    ok2 = _depends_on_sign(f, operand, negs)
+                    col.check(R, "%s:Ok#%d:value-depends-on-sign" % (name, k), ok2,
+                              "the value returned in this Ok is not derived from `is_negative` (neither computed from it nor selected under a test of it): e.g. a literal F::ZERO returned for a zero mantissa turns `-0e400` into +0.0", f.loc(st[3]))
     col.floor(R, "Ok exits of the float entry points", n, 8)
 
 
@@ -186,6 +232,49 @@ def rule_special_sees_untouched_bytes(col, facts):
         col.check(R, "%s:no-view-on-the-bytes-of-the-special" % name, not viewed,
                   "a digit-iterator view is opened on the same Bytes that is later handed to the special parser (%d site(s)): its peek() skips leading digit separators by moving the shared cursor, so `_nan` / `-_inf` are accepted although the format has no special_digit_separator" % len(viewed), viewed[0] if viewed else f.loc())
     col.floor(R, "float entry points examined", n, 4)
+
+
+def rule_case_fold_table(col, facts):
+    """TBL-fold: the byte comparison of starts_with_uncased as a decision table.  The closure that decides
+    "not equal" is loop-free; its paths are evaluated for every input byte against every ASCII letter of a
+    (validated, letters-only) option string and compared with the definition: equal iff the two bytes are the
+    same letter up to ASCII case.  A mask that forgets a bit (0x5F for 0xDF) accepts bytes >= 0x80."""
+    from rules.pathmodel import Model, Shape, Panic
+    R = "TBL-fold"
+    cl = [f for f in facts.all_fns() if f.kind == "Closure" and f.closure_of == PF + "shared::starts_with_uncased"]
+    col.check(R, "starts_with_uncased:closure", len(cl) == 1, "the per-byte comparison closure of starts_with_uncased was not found (%d closures): cannot be tabulated (fail closed)" % len(cl), facts.fn(PF + "shared::starts_with_uncased").loc())
+    if len(cl) != 1:
+        return
+    f = cl[0]
+
+    class M(Model):
+        def ev(self, e, args):
+            if isinstance(e, tuple) and e and e[0] == "proj":
+                b = e
+                while b[0] == "proj":
+                    b = b[1]
+                if b[0] == "arg" and not (e[2] == (1,) and isinstance(e[1], tuple) and e[1][0] == "bin"):
+                    return args[b[1] - 1]
+            return Model.ev(self, e, args)
+    try:
+        m = M(f, ty="u8")
+        bad = []
+        n = 0
+        for y in list(range(65, 91)) + list(range(97, 123)):
+            for x in range(256):
+                n += 1
+                got = m.value([y, x])
+                lx = x | 0x20 if (65 <= x <= 90 or 97 <= x <= 122) else x
+                want = int(lx != (y | 0x20))
+                if got != want:
+                    bad.append((x, y, got))
+        col.check(R, "starts_with_uncased:table", not bad,
+                  "input byte %#x compared with the option-string letter %r is reported %s (%d of %d entries differ from ASCII case-insensitive equality): a byte that is not that letter in either case matches a special string" % ((bad[0][0], chr(bad[0][1]), "equal" if bad and bad[0][2] == 0 else "not equal", len(bad), n) if bad else (0, "?", "", 0, n)), f.loc())
+        col.floor(R, "(input byte, letter) entries tabulated", n, 52 * 256)
+    except Shape as e:
+        col.bad(R, "starts_with_uncased:shape", "the comparison is no longer a loop-free table over the two bytes (%s): cannot be tabulated (fail closed)" % e, f.loc())
+    except Panic as e:
+        col.bad(R, "starts_with_uncased:panic", "the comparison can panic: %s" % e, f.loc())
 
 
 def rule_write_specials(col, facts):
@@ -317,6 +406,7 @@ def run(col, configs, tier):
         guarded(col, rule_write_specials, facts)
         guarded(col, rule_sign_reaches_every_ok, facts)
         guarded(col, rule_special_sees_untouched_bytes, facts)
+        guarded(col, rule_case_fold_table, facts)
         guarded(col, rule_special_classification, facts)
         from rules import extra as X2
         guarded(col, X2.rule_overflow_check_unconditional, facts)
